@@ -163,11 +163,31 @@ func runHistory(cs CaseSpec, mk func(nw *Network) []Monitor, after func(nw *Netw
 func init() {
 	register(&PropDef{
 		ID: "C01", Level: "exploration", Engine: "nodesim",
-		Rule: "one case = one seeded nodesim history (real Node objects, harness scheduler/network: shapes uniform/lagging/silent-minority/healing-partition/split-view, truncated+dropped+stale syncs, joins/leaves); a case is non-trivial when >=20 events were created and >=3 blocks delivered; distinct = distinct (seed,index,event count,last event hash)",
+		Rule: "two kinds of cases: (a) one seeded nodesim history (real Node objects, harness scheduler/network: shapes uniform/lagging/silent-minority/healing-partition/split-view, truncated+dropped+stale syncs, joins/leaves), non-trivial when >=20 events were created and >=3 blocks delivered; (b) one DAG (a fixed long-election shape with relabelled creators and fresh keys, or a split-view DAG found by a workload search for elections that last into a coin round) delivered to real Hashgraph instances in different arrival orders (random, one creator's events as late as possible, the ancestry of some event first), non-trivial when the reference produced >=3 blocks; distinct = distinct (seed,index,event count,last event hash)",
 		Assumptions: []string{"no equivocating creator is generated", "fast-forwarded nodes are judged by C13, not here", "one simulator step = one hold of the node's coreLock (single-threaded)"},
 		MinNontrivial: 10,
-		Cases: func(tier string, seed int64) []CaseSpec { return chainCases(tier, seed, 48, 640, true) },
+		Cases: func(tier string, seed int64) []CaseSpec {
+			cs := chainCases(tier, seed, 48, 640, true)
+			// plus: one DAG delivered to two real Hashgraph instances in different arrival
+			// orders (shape corpus and searched long-election DAGs), which reaches the
+			// coin-round / late-witness corners that random gossip rarely produces
+			extra := 8
+			if tier == "thorough" {
+				extra = 120
+			}
+			for i := 0; i < extra; i++ {
+				c := CaseSpec{Kind: "orders", P: map[string]int64{"n": 4, "events": int64(100 + (i*13)%100), "coin": 1}, S: map[string]string{"as": "C01"}}
+				if i%2 == 0 {
+					c.S["shape"] = "long-election"
+				}
+				cs = append(cs, c)
+			}
+			return cs
+		},
 		Run: func(cs CaseSpec) *CaseResult {
+			if cs.Kind == "orders" {
+				return runC03(cs)
+			}
 			return runHistory(cs, func(nw *Network) []Monitor { return []Monitor{NewMonAgreement(), NewMonReach()} }, nil)
 		},
 		PerCaseTimeout: 15 * time.Minute,
@@ -183,6 +203,12 @@ func init() {
 				if i%2 == 1 {
 					cs[i].P["badger"] = 1
 					cs[i].P["cache"] = int64(2000 + 100*(i%13))
+				}
+				if i%4 == 2 && cs[i].P["n"] >= 4 {
+					// validators that reset themselves from a peer's anchor (in place or after losing their data)
+					cs[i].P["ffresets"] = int64(2 + i%2)
+					cs[i].P["ffsingle"] = 1 // served by one random peer, possibly one that lags behind the resetting node
+					delete(cs[i].P, "rejoin")
 				}
 			}
 			return cs
